@@ -157,6 +157,8 @@ type pSession struct {
 	cons        *consRecv
 	consChecked bool
 	lastOffer   *types.Part
+	heldBefore  []bool // the parts held before the current action
+	blkIdx      int
 }
 
 func (s *pSession) total() int { return len(s.orig) }
@@ -391,6 +393,7 @@ type pReplay struct {
 	stores     int
 	consBlocks int
 	consSteps  int
+	forceBlock int // >= 0: the block to use (replay of a recorded violation)
 	kits       []*blockKit
 	sample     interface{}
 	blocks     []*types.Block
@@ -626,6 +629,9 @@ func (r *pReplay) run(g *mbt.Graph, seq []int) {
 			blkIdx := 0
 			if r.inst.Block {
 				blkIdx = r.rng.Intn(len(r.blocks))
+				if r.forceBlock >= 0 && r.forceBlock < len(r.blocks) {
+					blkIdx = r.forceBlock
+				}
 				blk, bz = r.blocks[blkIdx], r.blockBz[blkIdx]
 			}
 			ns, why := newSession(r.inst, st.Orig, r.seed, blk, bz)
@@ -638,6 +644,7 @@ func (r *pReplay) run(g *mbt.Graph, seq []int) {
 				s.cons.close()
 			}
 			s = ns
+			s.blkIdx = blkIdx
 			if r.inst.Cons {
 				cr, err := newConsRecv(r.kits[blkIdx].chain, r.kits[blkIdx].valKeys, s.header)
 				if err != nil {
@@ -687,6 +694,10 @@ func (r *pReplay) run(g *mbt.Graph, seq []int) {
 			return
 		}
 		s.lastOffer = part
+		s.heldBefore = make([]bool, s.total())
+		for i := range s.heldBefore {
+			s.heldBefore[i] = s.stored[i] != nil
+		}
 		if part.Index != a.Idx {
 			r.infra = append(r.infra, fmt.Sprintf("parts[%s]: built index %d for %s", r.inst.Name, part.Index, mbt.Compact(e.Act)))
 			return
@@ -729,7 +740,7 @@ func (r *pReplay) run(g *mbt.Graph, seq []int) {
 				return
 			}
 		}
-		if len(wp.Proof.Aunts) != a.Naunts {
+		if a.Naunts >= 0 && len(wp.Proof.Aunts) != a.Naunts {
 			r.drift("naunts/"+a.Cls, "%s has %d aunts, the specification says %d", a.Cls, len(wp.Proof.Aunts), a.Naunts)
 		}
 		added, aerr, pan := safeAdd(s.recv, wp)
@@ -863,8 +874,19 @@ func partRecord(p *types.Part) map[string]interface{} {
 	return map[string]interface{}{"index": p.Index, "bytes": bz, "aunts": aunts}
 }
 
+func heldBefore(s *pSession) []int {
+	held := []int{}
+	for i, p := range s.heldBefore {
+		if p {
+			held = append(held, i)
+		}
+	}
+	return held
+}
+
 func (r *pReplay) record(s *pSession, trace []string, a pAct, mismatch string) map[string]interface{} {
 	rec := map[string]interface{}{
+		"kind": "parts", "held_before": heldBefore(s), "block_index": s.blkIdx,
 		"offered_part":  partRecord(s.lastOffer),
 		"instantiation": r.inst, "pattern": s.orig, "part_size": s.partSize, "header": s.header.String(),
 		"behaviour_since_start": append([]string{}, trace...), "action": a, "mismatch": mismatch, "seed": r.seed,
